@@ -17,6 +17,7 @@ import traceback
 import warnings
 
 warnings.filterwarnings('ignore', category=SyntaxWarning)   # docstrings of the analysed sources
+warnings.filterwarnings('ignore', message='.*non-Expr objects in a Matrix.*')   # mutants that put a non-number into a matrix are reported through the obligation, not through sympy's warning
 
 VERIF = os.path.dirname(os.path.dirname(os.path.abspath(__file__)))
 REPO = os.environ.get('AMVERIF_REPO', '/repo')
